@@ -429,6 +429,7 @@ int main(int argc, char** argv) {
       reply_rc(rc);
     }
     else if (!strcmp(c, "cdestroy")) { int i = AI(1); if (C[i]) { API(yr_compiler_destroy(C[i])); C[i] = NULL; } reply_rc(0); }
+    else if (!strcmp(c, "atomq") && !C[AI(1)]) reply_rc(-2);
     else if (!strcmp(c, "atomq")) {
       int i = AI(1); size_t n; uint8_t* t = unhex(A(2), &n); char path[600]; snprintf(path, sizeof path, "%s/yvw_atomq_%d.bin", tmpdir, (int) getpid());
       FILE* f = fopen(path, "wb"); fwrite(t, 1, n, f); fclose(f); free(t);
@@ -459,7 +460,7 @@ int main(int argc, char** argv) {
       ob_puts(&out, ",\"last\":"); ob_int(&out, C[i]->last_error); ob_puts(&out, ",\"lastmsg\":"); ob_jstr(&out, em, -1);
       ob_puts(&out, ",\"msgs\":["); ob_puts(&out, cmsgs.p ? cmsgs.p : ""); ob_puts(&out, "]}");
     }
-    else if (!strcmp(c, "getrules") && C[AI(1)] && C[AI(1)]->errors != 0) { reply_rc(-2); /* yr_compiler_get_rules asserts errors == 0 */ }
+    else if (!strcmp(c, "getrules") && (!C[AI(1)] || C[AI(1)]->errors != 0)) { reply_rc(-2); /* yr_compiler_get_rules asserts errors == 0 */ }
     else if (!strcmp(c, "getrules")) { int i = AI(1), r = AI(2), rc; if (R[r]) { API(yr_rules_destroy(R[r])); R[r] = NULL; } API(rc = yr_compiler_get_rules(C[i], &R[r])); if (rc) R[r] = NULL; reply_rc(rc); }
     else if (!strcmp(c, "rdestroy")) { int r = AI(1); if (R[r]) { API(yr_rules_destroy(R[r])); R[r] = NULL; } reply_rc(0); }
     else if ((!strcmp(c, "save") || !strcmp(c, "savefile") || !strcmp(c, "stats")) && !R[AI(1)]) reply_rc(-2);
@@ -511,7 +512,13 @@ int main(int argc, char** argv) {
     else if (!strcmp(c, "stats")) { YR_RULES_STATS st; int rc; API(rc = yr_rules_get_stats(R[AI(1)], &st)); ob_puts(&out, "{\"rc\":"); ob_int(&out, rc); ob_puts(&out, ",\"rules\":"); ob_int(&out, st.num_rules); ob_puts(&out, ",\"strings\":"); ob_int(&out, st.num_strings); ob_puts(&out, ",\"ac_matches\":"); ob_int(&out, st.ac_matches); ob_putc(&out, '}'); }
     else if (!strcmp(c, "scan")) do_scan();
     else if (!strcmp(c, "live")) { ob_puts(&out, "{\"live\":"); ob_int(&out, yv_live); ob_puts(&out, ",\"count\":"); ob_int(&out, yv_alloc_count); ob_puts(&out, ",\"hits\":"); ob_int(&out, yv_fail_hits); ob_putc(&out, '}'); }
-    else if (!strcmp(c, "failat")) { yv_alloc_count = 0; yv_fail_hits = 0; yv_fail_at = atol(A(1)); yv_fail_mode = AI(2); reply_rc(0); }
+    else if (!strcmp(c, "failsite")) {
+      extern char __executable_start; char b[40];
+      ob_puts(&out, "{\"bt\":[");
+      for (int i = 0; i < yv_fail_bt_n; i++) { snprintf(b, sizeof b, "%s\"0x%lx\"", i ? "," : "", (unsigned long)((char*) yv_fail_bt[i] - &__executable_start)); ob_puts(&out, b); }
+      ob_puts(&out, "]}");
+    }
+    else if (!strcmp(c, "failat")) { if (atol(A(1)) != 0) { yv_fail_bt_n = 0; yv_alloc_count = 0; yv_fail_hits = 0; } yv_fail_at = atol(A(1)); yv_fail_mode = AI(2); reply_rc(0); }
     else if (!strcmp(c, "reset")) {
       for (int i = 0; i < NS; i++) if (S[i]) { API(yr_scanner_destroy(S[i])); S[i] = NULL; }
       for (int i = 0; i < NR; i++) if (R[i]) { API(yr_rules_destroy(R[i])); R[i] = NULL; }
